@@ -16,7 +16,7 @@ structure HourlyByEArgs (a : Args) : Prop where
   freq : a.freq = 4
   interval : 1 ≤ a.interval
   valid : a.dtstart.Valid
-  weekno : WArg a
+  byweekno : a.byweekno = none
   easter : ∃ el, a.byeaster = some el ∧ el ≠ [] ∧ ∀ o ∈ el, -80 ≤ o ∧ o ≤ 250
   monthday_nz : ∀ x ∈ a.bymonthday.getD [], x ≠ 0
   hours : ∃ l, a.byhour = some l ∧ ∀ x ∈ l, 0 ≤ x ∧ x ≤ 23
